@@ -3,7 +3,7 @@
    (contract, deliver_one, cover, justified, sound_along); proofs: Proofs/ContractProofs.v. *)
 Require Import WD.Base.Prelude WD.Base.BStr WD.Model.SubEvents WD.Model.Emitter WD.Model.Fs WD.Model.Reader
                WD.Model.DelayQueue WD.Model.Grouping WD.Model.Pipeline WD.Model.Contract.
-Require Import WD.Proofs.ContractProofs WD.Proofs.TieProofs.
+Require Import WD.Proofs.ContractProofs WD.Proofs.TieProofs WD.Proofs.MoveOutProofs.
 
 (* ================================================================== soundness: shape of what [emit] produces *)
 (* Hold for every item, every configuration, every content oracle - no hypothesis. *)
@@ -64,13 +64,14 @@ Print Assumptions C03_parent_modified.
 
 (* ================================================================== completeness, one operation issued alone *)
 (* For every configuration (recursive or not, full emitter or not, pinned or repaired reader), every world and
-   every reader/kernel state with an empty kernel queue in which the watch bookkeeping covers the directories
+   every reader/kernel state with an empty kernel queue and no directory IN_MOVED_FROM pending ([pend r = None]:
+   every quiescent state except right after a directory was moved out) in which the watch bookkeeping covers the directories
    the operation touches ([cover]: a directory inside the scope has a kernel watch with the full mask whose
    descriptor maps to its path in _path_for_wd/_wd_for_path, a directory outside has none): what the kernel
    queues, read in one batch, grouped and emitted equals the contract after collapsing adjacent duplicates.
    The entry is written parent ++ "/" ++ name with a valid name. *)
 
-Theorem C03_contract_touch : forall C full w k r, k_queue k = [] ->
+Theorem C03_contract_touch : forall C full w k r, k_queue k = [] -> pend r = None ->
   forall d n w', d <> [] -> last_is_sep d = false -> valid_name n = true ->
   cover C r k (w_fs w) d ->
   apply_op w (Touch (d ++ sep :: n)) = Some w' ->
@@ -79,7 +80,7 @@ Theorem C03_contract_touch : forall C full w k r, k_queue k = [] ->
 Proof. exact contract_touch. Qed.
 Print Assumptions C03_contract_touch.
 
-Theorem C03_contract_write : forall C full w k r, k_queue k = [] ->
+Theorem C03_contract_write : forall C full w k r, k_queue k = [] -> pend r = None ->
   forall d n w', d <> [] -> last_is_sep d = false -> valid_name n = true ->
   cover C r k (w_fs w) d ->
   apply_op w (Write (d ++ sep :: n)) = Some w' ->
@@ -88,7 +89,7 @@ Theorem C03_contract_write : forall C full w k r, k_queue k = [] ->
 Proof. exact contract_write. Qed.
 Print Assumptions C03_contract_write.
 
-Theorem C03_contract_chmod_file : forall C full w k r, k_queue k = [] ->
+Theorem C03_contract_chmod_file : forall C full w k r, k_queue k = [] -> pend r = None ->
   forall d n w', d <> [] -> last_is_sep d = false -> valid_name n = true ->
   cover C r k (w_fs w) d ->
   fisdir (d ++ sep :: n) (w_fs w) = false ->
@@ -100,7 +101,7 @@ Print Assumptions C03_contract_chmod_file.
 
 (* a directory other than the watched root (chmod of the root itself is reported as DirModified(root), which
    neither this contract nor the Python one describes: the root is not "in scope") *)
-Theorem C03_contract_chmod_dir : forall C full w k r, k_queue k = [] ->
+Theorem C03_contract_chmod_dir : forall C full w k r, k_queue k = [] -> pend r = None ->
   forall d n w', d <> [] -> last_is_sep d = false -> valid_name n = true ->
   cover C r k (w_fs w) d -> cover C r k (w_fs w) (d ++ sep :: n) ->
   d ++ sep :: n <> c_root C ->
@@ -111,7 +112,7 @@ Theorem C03_contract_chmod_dir : forall C full w k r, k_queue k = [] ->
 Proof. exact contract_chmod_dir. Qed.
 Print Assumptions C03_contract_chmod_dir.
 
-Theorem C03_contract_unlink : forall C full w k r, k_queue k = [] ->
+Theorem C03_contract_unlink : forall C full w k r, k_queue k = [] -> pend r = None ->
   forall d n w', d <> [] -> last_is_sep d = false -> valid_name n = true ->
   cover C r k (w_fs w) d ->
   apply_op w (Unlink (d ++ sep :: n)) = Some w' ->
@@ -122,7 +123,7 @@ Print Assumptions C03_contract_unlink.
 
 (* mkdir; `has_children p = false`: no entry of the tree lies directly under the not yet existing path
    (part of the well-formedness of a tree) *)
-Theorem C03_contract_mkdir : forall C full w k r, k_queue k = [] ->
+Theorem C03_contract_mkdir : forall C full w k r, k_queue k = [] -> pend r = None ->
   forall d n w', d <> [] -> last_is_sep d = false -> valid_name n = true ->
   cover C r k (w_fs w) d ->
   has_children (d ++ sep :: n) (w_fs w) = false ->
@@ -133,7 +134,7 @@ Proof. exact contract_mkdir. Qed.
 Print Assumptions C03_contract_mkdir.
 
 (* rmdir of a directory other than the watched root (that case is C07_root_deleted) *)
-Theorem C03_contract_rmdir : forall C full w k r, k_queue k = [] ->
+Theorem C03_contract_rmdir : forall C full w k r, k_queue k = [] -> pend r = None ->
   forall d n w', d <> [] -> last_is_sep d = false -> valid_name n = true ->
   cover C r k (w_fs w) d -> cover C r k (w_fs w) (d ++ sep :: n) ->
   d ++ sep :: n <> c_root C ->
@@ -145,7 +146,7 @@ Print Assumptions C03_contract_rmdir.
 
 (* rename of a file: inside the scope, out of it, into it, between two places outside; the target is absent or
    a file that is replaced *)
-Theorem C03_contract_rename_file : forall C full w k r, k_queue k = [] ->
+Theorem C03_contract_rename_file : forall C full w k r, k_queue k = [] -> pend r = None ->
   forall dp np dq nq w',
   dp <> [] -> last_is_sep dp = false -> valid_name np = true ->
   dq <> [] -> last_is_sep dq = false -> valid_name nq = true ->
@@ -162,7 +163,7 @@ Print Assumptions C03_contract_rename_file.
    synthetic moved per descendant in os.walk order, by C14), out of it, into it (created + synthetic created per
    descendant).  Two facts about the tree are hypotheses: os.walk under the new name afterwards finds what it found
    under the old name before, and the names found are valid file names. *)
-Theorem C03_contract_rename_dir_tree : forall C full w k r, k_queue k = [] ->
+Theorem C03_contract_rename_dir_tree : forall C full w k r, k_queue k = [] -> pend r = None ->
   forall dp np dq nq w',
   dp <> [] -> last_is_sep dp = false -> valid_name np = true ->
   dq <> [] -> last_is_sep dq = false -> valid_name nq = true ->
@@ -179,7 +180,7 @@ Print Assumptions C03_contract_rename_dir_tree.
 
 (* The same from well-formedness of the tree: every entry's path is parent ++ "/" ++ valid name, the target does
    not exist and nothing lies under it. *)
-Theorem C03_contract_rename_dir : forall C full w k r, k_queue k = [] ->
+Theorem C03_contract_rename_dir : forall C full w k r, k_queue k = [] -> pend r = None ->
   forall dp np dq nq w',
   dp <> [] -> last_is_sep dp = false -> valid_name np = true ->
   dq <> [] -> last_is_sep dq = false -> valid_name nq = true ->
@@ -196,7 +197,7 @@ Print Assumptions C03_contract_rename_dir.
 
 (* not proved: a directory that replaces an (empty) directory - the victim's IN_ATTRIB / IN_DELETE_SELF / IN_IGNORED
    are read after the reader has re-keyed its tables for the move *)
-Definition C03_contract_rename_dir_replacing_full : Prop := forall C full w k r, k_queue k = [] ->
+Definition C03_contract_rename_dir_replacing_full : Prop := forall C full w k r, k_queue k = [] -> pend r = None ->
   forall dp np dq nq w',
   dp <> [] -> last_is_sep dp = false -> valid_name np = true ->
   dq <> [] -> last_is_sep dq = false -> valid_name nq = true ->
@@ -216,12 +217,13 @@ Definition C03_sound_full : Prop :=
   forall P w s0 h, pc_filter P = None -> c_mask (pc_reader P) = WATCHDOG_ALL ->
     pinit P w = Some s0 -> sound_along P s0 [] h = true.
 
-(* FALSE of the current code (known finding F10): a directory moved out of the tree keeps its kernel watch and its
-   stale in-tree path; `mkdir R/d; drain; mv R/d O/d; drain; touch O/d/g; drain` delivers FileCreated(R/d/g).
-   Holds with all three reader repairs (F1, F9, F14) switched on. *)
+(* FALSE of the code BEFORE the repair of F10 (c_fix_moveout = false; the other three reader repairs F1, F9, F14
+   switched on): a directory moved out of the tree keeps its kernel watch and its stale in-tree path;
+   `mkdir R/d; drain; mv R/d O/d; drain; touch O/d/g; drain` delivers FileCreated(R/d/g). *)
 Theorem C03_sound_refuted_phantom :
   exists P w s0 h, pc_filter P = None /\ c_mask (pc_reader P) = WATCHDOG_ALL /\
     c_fix_ignored (pc_reader P) = true /\ c_fix_movein (pc_reader P) = true /\ c_fix_simulate (pc_reader P) = true /\
+    c_fix_moveout (pc_reader P) = false /\
     pinit P w = Some s0 /\ sound_along P s0 [] h = false.
 Proof. exact sound_refuted_phantom. Qed.
 Print Assumptions C03_sound_refuted_phantom.
@@ -237,6 +239,99 @@ Theorem C03_phantom_delivered :
     fexists ph_Odg (w_fs (p_world s)) = true.
 Proof. exact phantom_delivered. Qed.
 Print Assumptions C03_phantom_delivered.
+
+(* ================================================================== a directory that has left the tree (repair of F10) *)
+(* All for the current code: c_fix_moveout = true.  [tgt p q]: q is p or below p. *)
+
+(* A record the kernel delivers for a descriptor the reader does not (any longer) know produces no event, whatever is
+   pending, and the descriptor stays unknown (pinned code: KeyError). *)
+Theorem C03_forgotten_descriptor_no_event : forall C, c_fix_moveout C = true -> forall t r k acc e,
+  alookup N.eqb (k_wd e) (pfw r) = None ->
+  exists r' k', read_one C t (r, k, acc) e = Done (r', k', acc) /\ alookup N.eqb (k_wd e) (pfw r') = None.
+Proof. exact read_one_forgotten. Qed.
+Print Assumptions C03_forgotten_descriptor_no_event.
+
+(* The loop head on the first record after a directory IN_MOVED_FROM that is not its IN_MOVED_TO arriving on a descriptor
+   the reader knows (so: anything else, also the IN_MOVED_TO delivered through a forgotten descriptor): the key, the
+   descriptor entry and the kernel watch of the directory and of everything below it are gone. *)
+Theorem C03_moveout_forgets : forall C, c_fix_moveout C = true -> forall r k e c p r0 k0,
+  pend r = Some (c, p) -> is_moved_to (k_mask e) && N.eqb (k_cookie e) c && amem N.eqb (k_wd e) (pfw r) = false ->
+  settle_pending C r k e = (r0, k0) ->
+  forall q wd, tgt p q = true -> alookup beqb q (wfp r) = Some wd -> alookup N.eqb wd (pfw r) = Some q ->
+    alookup beqb q (wfp r0) = None /\ alookup N.eqb wd (pfw r0) = None /\ has_wd k0 wd = false.
+Proof. exact moveout_forgets. Qed.
+Print Assumptions C03_moveout_forgets.
+
+(* No phantom events, from the first record processed after the IN_MOVED_FROM on: with consistent, normalised tables,
+   the IN_MOVED_FROM of directory p pending and the next record not p's IN_MOVED_TO on a known descriptor (the directory
+   has left the tree), any batch of records that are quiet (everything but IN_MOVED_TO and IN_CREATE|IN_ISDIR, which can
+   legitimately re-create the name) or arrive on descriptors the reader does not know yields no raw event with a path
+   below p and leaves no descriptor recorded at or below p.  No side condition about forgotten descriptors is left:
+   p's own IN_MOVED_TO delivered through a forgotten descriptor is such a first record. *)
+Theorem C03_no_phantom_after_moveout : forall C t r k acc c p e b r' k' acc',
+  c_fix_moveout C = true -> consistent r -> pfw_norm r -> pend r = Some (c, p) ->
+  is_moved_to (k_mask e) && N.eqb (k_cookie e) c && amem N.eqb (k_wd e) (pfw r) = false ->
+  Forall (quiet_or_unknown r) (e :: b) ->
+  read_batch C t (r, k, acc) (e :: b) = Done (r', k', acc') ->
+  clean p r' /\ exists new, acc' = acc ++ new /\ Forall (fun ev => under p (r_path ev) = false) new.
+Proof. exact no_phantom_after_moveout. Qed.
+Print Assumptions C03_no_phantom_after_moveout.
+
+(* ... and it stays so over any further batches of such records ([r0]: any earlier state bounding the descriptor table) *)
+Theorem C03_no_phantom_clean : forall C, c_fix_moveout C = true -> forall p t r0 b r k acc r' k' acc',
+  clean p r -> (forall wd q, alookup N.eqb wd (pfw r) = Some q -> alookup N.eqb wd (pfw r0) = Some q) ->
+  Forall (quiet_or_unknown r0) b -> read_batch C t (r, k, acc) b = Done (r', k', acc') ->
+  clean p r' /\ (forall wd q, alookup N.eqb wd (pfw r') = Some q -> alookup N.eqb wd (pfw r0) = Some q) /\
+  exists new, acc' = acc ++ new /\ Forall (fun ev => under p (r_path ev) = false) new.
+Proof. exact batch_no_phantom. Qed.
+Print Assumptions C03_no_phantom_clean.
+
+(* The history that refutes soundness of the pinned code, on the current code: sound; no event below /R/d; the watch of d
+   is gone from _wd_for_path, _path_for_wd and the kernel. *)
+Theorem C03_phantom_repaired :
+  exists s0 s obs, pinit fx_cfg ph_world = Some s0 /\ prun fx_cfg s0 ph_history [] = Done (s, obs) /\
+    sound_along fx_cfg s0 [] ph_history = true /\
+    forallb (fun ev => negb (under ph_Rd (ev_src ev))) (p_out s) = true /\
+    wfp (p_r s) = [(ph_R, 1%N)] /\ pfw (p_r s) = [(1%N, ph_R)] /\ pend (p_r s) = None /\
+    has_wd (p_k s) 2 = false.
+Proof. exact phantom_repaired. Qed.
+Print Assumptions C03_phantom_repaired.
+
+(* Two directories leave the tree in one burst, the second INTO the first (mv R/a O/x; mv R/b O/x/b read in one batch): the
+   second IN_MOVED_TO arrives through R/a's still existing watch, a descriptor the reader has just forgotten.  The first
+   version of the repair (candidate cleared on any IN_MOVED_TO with the cookie - not expressible with the flags) then kept
+   R/b's watch and delivered mkdir O/x/b/z as DirCreated(R/b/z); found by this check's thorough tier, regression case
+   corpus/C03/f10-nested-moveout.json.  Current code: sound, no event below /R/a or /R/b, both sub-trees forgotten. *)
+Theorem C03_nested_moveout_repaired :
+  exists s0 s obs, pinit fx_cfg ph_world = Some s0 /\ prun fx_cfg s0 gap_history [] = Done (s, obs) /\
+    sound_along fx_cfg s0 [] gap_history = true /\
+    forallb (fun ev => negb (under gap_Ra (ev_src ev)) && negb (under gap_Rb (ev_src ev))) (p_out s) = true /\
+    wfp (p_r s) = [(ph_R, 1%N)] /\ pfw (p_r s) = [(1%N, ph_R)] /\ pend (p_r s) = None /\
+    has_wd (p_k s) 2 = false /\ has_wd (p_k s) 3 = false.
+Proof. exact nested_moveout_repaired. Qed.
+Print Assumptions C03_nested_moveout_repaired.
+
+(* History-level soundness of the current code (all four reader repairs on). *)
+Definition C03_sound_full_current : Prop :=
+  forall P w s0 h, pc_filter P = None -> c_mask (pc_reader P) = WATCHDOG_ALL ->
+    c_fix_ignored (pc_reader P) = true -> c_fix_movein (pc_reader P) = true -> c_fix_simulate (pc_reader P) = true ->
+    c_fix_moveout (pc_reader P) = true ->
+    pinit P w = Some s0 -> sound_along P s0 [] h = true.
+
+(* Still false, by the one remaining known finding F10e (not a move-out): mkdir R/c; mv R/c R/b; mkdir R/c back to back -
+   the name of a directory renamed before its first read is re-used before that read; later mv R/b R/c/c; mkdir R/c/b is
+   delivered as DirCreated(R/c/c/b). *)
+Theorem C03_sound_current_refuted_f10e :
+  exists s0 s obs, pinit fx_cfg ph_world = Some s0 /\ prun fx_cfg s0 f10e_history [] = Done (s, obs) /\
+    In (mk DirCreated e_Rccb []) (p_out s) /\ fexists e_Rccb (w_fs (p_world s)) = false /\
+    fexists e_Rcb (w_fs (p_world s)) = true /\
+    sound_along fx_cfg s0 [] f10e_history = false.
+Proof. exact sound_current_refuted_f10e. Qed.
+Print Assumptions C03_sound_current_refuted_f10e.
+
+Theorem C03_sound_full_current_refuted : ~ C03_sound_full_current.
+Proof. exact sound_full_current_false. Qed.
+Print Assumptions C03_sound_full_current_refuted.
 
 (* ================================================================== tie to the Pipeline model *)
 (* [deliver_one] is what the Pipeline model (validated in lock-step against the real observer) delivers for
@@ -361,3 +456,16 @@ Proof. vm_compute. repeat split; try discriminate. repeat constructor; eexists; 
 Example C03_pipeline_tie_examples :
   ex_tie true false = true /\ ex_tie true true = true /\ ex_tie false false = true /\ ex_tie false true = true.
 Proof. vm_compute. repeat split. Qed.
+
+(* the hypotheses of C03_moveout_forgets / C03_no_phantom_after_moveout on the model state right after
+   `mkdir R/d; drain; mv R/d O/d; read; touch O/d/g`: the candidate (1, /R/d) is pending, the tables are consistent and
+   normalised, the kernel queue holds the three records of the touch on d's still existing watch (descriptor 2) -
+   reading them yields no raw event at all and removes d's watch *)
+Example C03_moveout_nonvacuous :
+  exists s e b, mo_state = Some s /\ k_queue (p_k s) = e :: b /\
+    pend (p_r s) = Some (1%N, ph_Rd) /\ consistent (p_r s) /\ pfw_norm (p_r s) /\
+    is_moved_to (k_mask e) && N.eqb (k_cookie e) 1 && amem N.eqb (k_wd e) (pfw (p_r s)) = false /\ Forall quiet (e :: b) /\ length b = 2%nat /\
+    alookup beqb ph_Rd (wfp (p_r s)) = Some 2%N /\ alookup N.eqb 2%N (pfw (p_r s)) = Some ph_Rd /\ has_wd (p_k s) 2 = true /\
+    exists r' k', read_batch (pc_reader fx_cfg) (w_fs (p_world s)) (p_r s, p_k s, []) (e :: b) = Done (r', k', []) /\
+                  wfp r' = [(ph_R, 1%N)] /\ has_wd k' 2 = false.
+Proof. exact moveout_nonvacuous. Qed.
